@@ -113,7 +113,54 @@ func checkC20(w *World) {
 	}
 	w.floor(P, "R20.1", 9)
 	// bindings flow
-	flow := func(cbResultField, global string, target string) {
+	// the globals are identified by the command-line letter they are registered under (the public interface of the
+	// command), the variable map by the type of the field it ends up in; never by their names
+	flagLetter := map[string]string{} // letter -> global name
+	allInstrs(init, func(in ssa.Instruction) {
+		st, ok := in.(*ssa.Store)
+		if !ok {
+			return
+		}
+		g, ok := st.Addr.(*ssa.Global)
+		if !ok {
+			return
+		}
+		if c, ok := st.Val.(*ssa.Call); ok && staticCallee(c) != nil && strings.HasPrefix(funcFullName(staticCallee(c)), "flag.") && len(c.Call.Args) > 0 {
+			if l, ok := constString(c.Call.Args[0]); ok {
+				flagLetter[l] = g.Name()
+			}
+		}
+	})
+	allInstrs(mainFn, func(in ssa.Instruction) {
+		c, ok := in.(*ssa.Call)
+		if !ok || staticCallee(c) == nil || funcFullName(staticCallee(c)) != "flag.Var" || len(c.Call.Args) < 2 {
+			return
+		}
+		if n := mainGlobalLoad(stripConv(c.Call.Args[0])); n != "" {
+			if l, ok := constString(c.Call.Args[1]); ok {
+				flagLetter[l] = n
+			}
+		}
+	})
+	flow := func(cbResultField, letter string, target string) {
+		global := flagLetter[letter]
+		if letter == "v" {
+			// the variables are converted into a map of the field's own type first: the global of that type
+			global = ""
+			for n, m := range pkg.Members {
+				if g, ok := m.(*ssa.Global); ok {
+					if mt, ok := g.Type().(*types.Pointer).Elem().Underlying().(*types.Map); ok {
+						if kn, ok := types.Unalias(mt.Key()).(*types.Named); ok && kn.Obj().Name() == "XmlName" {
+							global = n
+						}
+					}
+				}
+			}
+		}
+		if global == "" {
+			w.undecided(P, "R20.1", fmt.Sprintf("option -%s reaches %s through %s", letter, cbResultField, target), 0, "no package-level variable is registered for the option")
+			return
+		}
 		found := false
 		for _, fn := range all {
 			allInstrs(fn, func(in ssa.Instruction) {
@@ -143,12 +190,12 @@ func checkC20(w *World) {
 				}
 			})
 		}
-		w.check(P, "R20.1", fmt.Sprintf("%s reaches %s through %s", global, cbResultField, target), 0, found, fmt.Sprintf("%v", found))
+		w.check(P, "R20.1", fmt.Sprintf("option -%s reaches %s through %s", letter, cbResultField, target), 0, found, fmt.Sprintf("%v (variable %s)", found, global))
 	}
-	flow("NamespaceDecls", "namespaces", "xsel.Exec")
-	flow("Variables", "variableBindings", "xsel.Exec")
-	flow("Entity", "entities", "xsel.ReadXml")
-	flow("Strict", "unstrict", "xsel.ReadXml")
+	flow("NamespaceDecls", "s", "xsel.Exec")
+	flow("Variables", "v", "xsel.Exec")
+	flow("Entity", "e", "xsel.ReadXml")
+	flow("Strict", "u", "xsel.ReadXml")
 
 	// bindings are taken verbatim from the command line
 	docRule(P, "R20.6", "F", "the -s/-v/-e option parser stores the text before '=' as the key and the text after it as the value, unmodified (no trimming or case folding); the -m serialiser names every start tag, end tag and attribute with the node's own Space() and Local(), unconditionally.")
